@@ -367,7 +367,7 @@ def corpus():
 
 
 # ---------------------------------------------------------------- malformed inputs
-PROBES = ["(", ")", ",", ";", ".", "SELECT", "FROM", "AND", "NOT", "IN", "BETWEEN", "1", "'s'", "x", "*", "+", "-", "=", "[", "]", "AS", "JOIN", "CASE",
+PROBES = ["\u00b2", "\u2460", "1e3", "0x", ".5", "5.", "(", ")", ",", ";", ".", "SELECT", "FROM", "AND", "NOT", "IN", "BETWEEN", "1", "'s'", "x", "*", "+", "-", "=", "[", "]", "AS", "JOIN", "CASE",
           "END", "LIMIT", "()", "(,)", "NULL"]
 
 
